@@ -469,7 +469,7 @@ ARITH = {"+": "add", "-": "sub", "*": "mul", "/": "div"}
 RESERVED = {"mul", "add", "sub", "div", "one", "zero", "two", "eps", "fst", "snd", "bb", "bd", "bu", "ba", "sx", "bop",
             "leb", "ltb", "gtb", "eqb", "negb", "andb", "orb", "is_zero", "is_one", "in_unit", "if", "then", "else", "let",
             "in", "match", "with", "end", "fun", "Some", "None", "true", "false", "tt", "V", "F", "B"}
-GTYPE = {"num": "V", "bool": "bool", "bop": "bop", "sx": "sx", "sx2": "(sx * sx)", "res": "bool", "opt_bop": "option bop",
+GTYPE = {"op2": "opinion", "num": "V", "bool": "bool", "bop": "bop", "sx": "sx", "sx2": "(sx * sx)", "res": "bool", "opt_bop": "option bop",
          "opt_sx": "option sx", "unit": "unit"}
 
 
@@ -736,6 +736,12 @@ class Tr:
         return k("(%s %s %s)" % (ARITH[op], a, b), "num")
 
     def field(self, a, s, name, k):
+        if s == "op2" and name == "base_rate":
+            return k("(snd %s)" % a, "list2")
+        if s == "op2" and name == "simplex":
+            return k("(fst %s)" % a, "spx2")
+        if s == "sx" and name == "0":
+            return k("([sx_b %s; sx_d %s], sx_u %s)" % (a, a, a), "spx2")     # BSimplex(Simplex1d): the wrapped simplex
         if s == "bop" and name == "base_rate":
             return k("(ba %s)" % a, "num")
         if s == "bop" and name == "simplex":
@@ -745,6 +751,10 @@ class Tr:
         self.err("field .%s of a %s" % (name, s))
 
     def method(self, a, s, name, args, env, k):
+        if s == "op2" and name == "b" and not args:
+            return k("(fst (fst %s))" % a, "list2")
+        if s == "op2" and name == "u" and not args:
+            return k("(snd (fst %s))" % a, "num")
         if s == "bop" and name in ("b", "d", "u", "a") and not args:
             return k("(b%s %s)" % (name, a), "num")
         if s == "sx" and name in ("b", "d", "u") and not args:
@@ -755,6 +765,8 @@ class Tr:
         self.err("method .%s() on a %s" % (name, s))
 
     def index(self, a, s, i, k):
+        if s == "list2":
+            return k("(get %s %d)" % (a, i), "num")
         if s == "sx2":
             return k("(%s %s)" % ("fst" if i == 0 else "snd", a), "sx")
         self.err("indexing a %s" % s)
@@ -860,6 +872,16 @@ class Tr:
     def struct(self, e, env, k):
         _, path, fields = e
         names = [f for f, _ in fields]
+        if path[-1] == "Opinion1d" and sorted(names) == ["base_rate", "simplex"]:
+            fd = dict(fields)
+
+            def done2(vals):
+                v = dict(zip(names, vals))
+                (sx_, ss), (a, sa) = v["simplex"], v["base_rate"]
+                if (ss, sa) != ("spx2", "pair"):
+                    self.err("Opinion1d fields of sorts %s, %s" % (ss, sa))
+                return k("(%s, [%s])" % (sx_, a.replace(", ", "; ")), "op2")
+            return self.call_args([fd[n] for n in names], env, done2)
         if path[-1] not in ("Self", "BOpinion") or sorted(names) != ["base_rate", "simplex"]:
             self.err("struct literal %s {%s}" % ("::".join(path), ", ".join(names)))
         fd = dict(fields)
@@ -1159,8 +1181,67 @@ class Checks:
         return "\n".join(out)
 
 
+CONVERT_PRELUDE = '''(* GENERATED by tools/rs2v.py --convert from %s - do not edit. *)
+From Coq Require Import List Bool.
+Import ListNotations.
+From SL Require Import Model.Num Model.Vec Model.Mul Model.Bi.
+
+Section ConvGen.
+Context {B : Fld}.
+Notation V := (@V B).
+Notation bop := (@bop B).
+Notation opinion := (@opinion B).
+Definition sx : Type := (V * V * V)%%type.
+Definition sx_b (s : sx) : V := fst (fst s).
+Definition sx_d (s : sx) : V := snd (fst s).
+Definition sx_u (s : sx) : V := snd s.
+Definition sx_of (w : bop) : sx := (bb w, bd w, bu w).
+'''
+
+
+def render_convert(path):
+    """src/convert.rs: the three From impls between BOpinion and Opinion1d<_, 2>"""
+    src = strip_comments(open(path).read())
+    body = region_text(src, "impl_convert")
+    impls = [("g_bop_to_mul", r"impl\s+From<BOpinion<\$ft>>\s+for\s+Opinion1d<\$ft,\s*2>", "bop", "op2"),
+             ("g_mul_to_bop", r"impl\s+From<Opinion1d<\$ft,\s*2>>\s+for\s+BOpinion<\$ft>", "op2", "bop"),
+             ("g_mul_to_bop_ref", r"impl\s+From<&Opinion1d<\$ft,\s*2>>\s+for\s+BOpinion<\$ft>", "op2", "bop")]
+    out = [CONVERT_PRELUDE % path]
+
+    class M:
+        def inline(self, name):
+            return None
+
+        def has(self, region, name):
+            return False
+    for g, hdr, sin, sout in impls:
+        m = re.search(hdr + r"\s*\{", body)
+        if not m:
+            raise Unsupported("impl block for %s not found" % g)
+        blk = body[m.end() - 1:brace_end(body, m.end() - 1)]
+        fns = all_fns(blk)
+        if "from" not in fns:
+            raise Unsupported("%s: fn from not found" % g)
+        params, header, fbody = fns["from"]
+        pn = param_list(params)[0][0]
+        tr = Tr(M(), "impl_bop", g, sout)
+
+        def final(t, s, _e, tr=tr, sout=sout):
+            if s != sout:
+                tr.err("body of sort %s where %s is expected" % (s, sout))
+            return t
+        tr.kret = final
+        term = tr.block(P(lex(fbody)).block(), {pn: ("x", sin)}, final)
+        out.append("Definition %s (x : %s) : %s :=\n  %s.\n" % (g, GTYPE[sin], GTYPE[sout], term))
+    out.append("End ConvGen.\n")
+    return "\n".join(out)
+
+
 if __name__ == "__main__":
     try:
+        if sys.argv[1] == "--convert":
+            sys.stdout.write(render_convert(sys.argv[2]))
+            sys.exit(0)
         if sys.argv[1] == "--checks":
             sys.stdout.write(Checks(sys.argv[2], sys.argv[3]).render())
             sys.exit(0)
